@@ -5,7 +5,9 @@ import (
 	"bytes"
 	"encoding/hex"
 	"fmt"
+	"io"
 	"sync/atomic"
+	"testing/iotest"
 
 	"github.com/datastax/go-cassandra-native-protocol/compression/lz4"
 	"github.com/datastax/go-cassandra-native-protocol/segment"
@@ -272,25 +274,65 @@ func (w *failingWriter) Write(p []byte) (int, error) {
 	return n, fmt.Errorf("injected write failure")
 }
 
+var c06Sentinel = []byte{0xde, 0xad, 0xbe, 0xef, 0x55}
+
+type plainReader struct{ r io.Reader }
+
+func (p plainReader) Read(b []byte) (int, error) { return p.r.Read(b) }
+
+// checkDecode decodes a valid segment from two kinds of source - a bytes.Reader and a *bytes.Buffer
+// that holds trailing bytes (alternating with a plain and a half reader by payload length) - and
+// OVERWRITES the memory the source was reading from before it looks at the result: the decoder must
+// consume exactly the segment and must hand out a payload that does not alias its source.
 func checkDecode(c *vlib.Check, codec segment.Codec, name string, wire, payload []byte, sc bool, counter *int64) {
-	var seg *segment.Segment
-	var err error
-	if pv, site := vlib.Catch(func() { seg, err = codec.DecodeSegment(bytes.NewReader(wire)) }); pv != nil {
-		c.Violation(map[string]string{"kind": "decode-panic", "codec": name, "site": site}, fmt.Sprintf("DecodeSegment panics on a valid segment (payload %d): %v", len(payload), pv), len(payload))
-		return
-	}
-	if err != nil {
-		c.Violation(map[string]string{"kind": "decode-error", "codec": name}, fmt.Sprintf("valid segment (%s) with a payload of %d bytes does not decode: %v", name, len(payload), err), map[string]interface{}{"len": len(payload), "wire_prefix": hx(wire)})
-		return
-	}
-	atomic.AddInt64(counter, 1)
-	if !bytes.Equal(seg.Payload.UncompressedData, payload) {
-		c.Violation(map[string]string{"kind": "payload-mismatch", "codec": name}, fmt.Sprintf("decoded payload differs (got %d bytes, sent %d)", len(seg.Payload.UncompressedData), len(payload)), len(payload))
-	}
-	if seg.Header.IsSelfContained != sc {
-		c.Violation(map[string]string{"kind": "flag-mismatch", "codec": name}, fmt.Sprintf("decoded self-contained flag %v, sent %v", seg.Header.IsSelfContained, sc), len(payload))
-	}
-	if int(seg.Header.UncompressedPayloadLength) != len(payload) {
-		c.Violation(map[string]string{"kind": "header-length-inconsistent", "codec": name}, fmt.Sprintf("decoded Header.UncompressedPayloadLength=%d for a payload of %d bytes", seg.Header.UncompressedPayloadLength, len(payload)), len(payload))
+	for k := 0; k < 2; k++ {
+		back := append(append([]byte{}, wire...), c06Sentinel...)
+		var src io.Reader
+		var rest func() []byte
+		kind := "bytes.Reader"
+		switch {
+		case k == 1:
+			kind = "bytes.Buffer"
+			bb := bytes.NewBuffer(back)
+			src, rest = bb, func() []byte { return append([]byte{}, bb.Bytes()...) }
+		default:
+			br := bytes.NewReader(back)
+			rest = func() []byte { x, _ := io.ReadAll(br); return x }
+			switch len(payload) % 3 {
+			case 0:
+				src = br
+			case 1:
+				kind, src = "plain reader", plainReader{br}
+			default:
+				kind, src = "half reader", iotest.HalfReader(br)
+			}
+		}
+		var seg *segment.Segment
+		var err error
+		if pv, site := vlib.Catch(func() { seg, err = codec.DecodeSegment(src) }); pv != nil {
+			c.Violation(map[string]string{"kind": "decode-panic", "codec": name, "site": site}, fmt.Sprintf("DecodeSegment panics on a valid segment (payload %d, %s): %v", len(payload), kind, pv), len(payload))
+			return
+		}
+		if err != nil {
+			c.Violation(map[string]string{"kind": "decode-error", "codec": name}, fmt.Sprintf("valid segment (%s) with a payload of %d bytes does not decode from a %s: %v", name, len(payload), kind, err), map[string]interface{}{"len": len(payload), "wire_prefix": hx(wire)})
+			return
+		}
+		atomic.AddInt64(counter, 1)
+		left := rest()
+		for i := range back {
+			back[i] = 0xEE
+		}
+		if !bytes.Equal(left, c06Sentinel) {
+			c.Violation(map[string]string{"kind": "consumption", "codec": name, "source": kind}, fmt.Sprintf("decoding one segment (payload %d) from a %s leaves %d bytes instead of the 5 that follow it", len(payload), kind, len(left)), len(payload))
+		}
+		if !bytes.Equal(seg.Payload.UncompressedData, payload) {
+			c.Violation(map[string]string{"kind": "payload-mismatch", "codec": name}, fmt.Sprintf("decoded payload differs (got %d bytes, sent %d; source %s, compared after the source's memory was overwritten)", len(seg.Payload.UncompressedData), len(payload), kind), len(payload))
+		}
+		if seg.Header.IsSelfContained != sc {
+			c.Violation(map[string]string{"kind": "flag-mismatch", "codec": name}, fmt.Sprintf("decoded self-contained flag %v, sent %v", seg.Header.IsSelfContained, sc), len(payload))
+		}
+		if int(seg.Header.UncompressedPayloadLength) != len(payload) {
+			c.Violation(map[string]string{"kind": "header-length-inconsistent", "codec": name}, fmt.Sprintf("decoded Header.UncompressedPayloadLength=%d for a payload of %d bytes", seg.Header.UncompressedPayloadLength, len(payload)), len(payload))
+		}
 	}
 }
